@@ -18,7 +18,8 @@ RULE = ('build: 4 message classes x drawn subset of optional fields x no-reply/n
         'MarshallingError; build_fds: sequences of method calls carrying 0-3 descriptors (oobFDs) built in one process, '
         'each decoded strictly; reject_affixed: every message class x name-carrying argument x valid name with one foreign '
         'character (newline, CR, NUL, blank, separator, non-ASCII) in front or behind, exhaustive. Non-trivial = (>=1 optional field and a body) or a non-default flag or big-endian / '
-        'permuted / unknown-field input; distinct = distinct case JSON.')
+        'permuted / unknown-field input; distinct = distinct case JSON. Parse-side inputs also carry what only a foreign encoder '
+        'writes: header fields defined for another message type (PATH on a reply ...), which must come back, and extra flag bits.')
 ASSUMPTIONS = ['sender is set through a constructor only where one takes it (ErrorMessage)',
                'unknown header field codes must be ignored, not preserved']
 
@@ -121,6 +122,8 @@ def classify_build(case):
 @st.composite
 def parse_case(draw, tier):
     msg = draw(S.message(body_depth=2 if tier == 'quick' else 3, big=True))
+    draw(S.wire_only_extras(msg))
+    msg.pop('flag_bits', None)      # drawn separately below
     nextra = draw(st.sampled_from([0, 0, 1, 2]))
     extra = []
     for _ in range(nextra):
@@ -162,6 +165,8 @@ def classify_parse(case):
         labels.append('permuted')
     if case['extra']:
         labels.append('unknown_fields')
+    if msg.get('foreign'):
+        labels.append('fields_of_other_types')
     if case.get('flag_bits'):
         labels.append('unknown_flag_bits')
     if msg['no_reply'] or msg['no_auto']:
@@ -233,7 +238,8 @@ def run_build_fds(case):
 
 
 AFFIXES = ['\n', '\r', '\r\n', '\t', ' ', '\x00', '\x0b', '\u2028', '.', '/', ':', '-', 'é',
-           '\u017f', '\u212a', '\u0130', '\u0131', '\uff21', '\u0663', '\u200b']      # non-ASCII look-alikes of ASCII name characters
+           '\u017f', '\u212a', '\u0130', '\u0131', '\uff21', '\u0663', '\u200b',      # non-ASCII look-alikes of ASCII name characters
+           '%', '%s', '%d', '{}', '{0}', '\\', '$', '*', '"', "'"]      # characters with a meaning in error-text formatting
 BASES = {'path': ['/o', '/a/b_c'], 'member': ['Ping', 'm_2'], 'interface': ['a.b', 'org.verif.If_1'],
          'destination': ['c.d', ':1.42'], 'error_name': ['a.b.E', 'org.verif.Error.X9']}
 
